@@ -5,7 +5,12 @@ Workload: the real `Otlp` emitter, configured with each of the eight subsets of 
 metrics} over HTTP+JSON / HTTP+protobuf / gRPC (gzip on and off), against the scripted local
 collector (every request acknowledged). Every event carries a unique `vid` (as the `vid`
 attribute and as its message `v<vid>`), and is drawn from
-kind ∈ {absent, span (typed / text / upper-case text), metric (same), unknown text, wrong type, null}
+kind ∈ {absent, span (typed / text / upper-case text), metric (same), unknown text, wrong type, null},
+  the span / metric kinds additionally carried in other ways: the typed Kind after `to_owned()` /
+  `to_shared()` + `by_ref()` (an event replayed from a buffer), `from_display` / `capture_display` of a
+  foreign type that prints the kind, an owned `String` (directly, through serde, through sval), padded /
+  mixed-case text (`Kind::from_str` trims and ignores ASCII case), and as an ambient `evt_kind`
+  pushed through a `ThreadLocalCtxt` frame
 × extent ∈ {none, point, range, empty range}
 × metric value ∈ {int, float, numeric sequence, empty sequence, text, numeric-looking text, bool,
   nested sequence, sequence with text, null, missing, integer outside i64}
